@@ -83,6 +83,7 @@ def c01(rec, tier):
     f10_parity.run_number_equality(rec, F, "unboxed")
     # every compiled expression passes through the peephole pass
     f11_peephole.run(rec, F, S)
+    f2_visit.run_once(rec, S)
 
 
 def c02(rec, tier):
@@ -252,6 +253,8 @@ def c16(rec, tier):
     f9_casts.run_vm_sizes(rec, F)
     f4_vm.hook_exit(rec, F)
     f4_gc.growth_progress(rec, F)
+    # sentinel tests () guard host panics
+    f10_parity.run_number_equality(rec, F, "unboxed")
 
 
 def c17(rec, tier):
@@ -280,6 +283,7 @@ def c19(rec, tier):
     f4_vm.diagnostics_gate(rec, F)
     f4_repl.run_redeclare(rec, F)
     f4_repl.run_capture_arms(rec, S)
+    f10_parity.run_number_equality(rec, F, "unboxed")
 
 
 def _with_debug_parity(pid, fn):
